@@ -303,8 +303,10 @@ theorem lemma_rw_inv (ops : List WOp) (rw : RW)
       | header c =>
         have hc : c ≠ 0 := hvalid c (by simp)
         cases hw : rw.written
-        · obtain ⟨hu, hs, _⟩ := h1 hw
-          simp [RW.step, hw, hu, hs, Wire.step, RW.StatusCode, hc]
+        · obtain ⟨hu, hs, hz⟩ := h1 hw
+          by_cases hi : isInfo c = true
+          · simp [RW.step, hw, hu, hs, hz, Wire.step, hi]
+          · simp [RW.step, hw, hu, hs, Wire.step, RW.StatusCode, hc, hi]
         · have : rw.step (.header c) = rw := by simp [RW.step, hw]
           rw [this]; exact ⟨h1, h2, h3⟩
       | write n =>
@@ -334,6 +336,17 @@ theorem status_size_truthful (ops : List WOp) (hvalid : ∀ c, WOp.header c ∈ 
     simp [RW.StatusCode, hz, hu, Wire.clientStatus]
   · obtain ⟨hst, _⟩ := h2 hw
     simp [Wire.clientStatus, hst]
+
+/-- informational responses included: 103 Early Hints, then the final status -/
+example : (({} : RW).run [.header 103, .header 404, .write 4]).StatusCode = 404 ∧
+    (({} : RW).run [.header 103, .header 404, .write 4]).under.clientStatus = 404 := by decide
+
+/-- K08g, as shipped: the wrapper took the 103 for the final status and swallowed the 404 — it recorded 103, and the
+    client received 200 (the implied status of the first Write) instead of 404 -/
+theorem asIs_k08g_informational :
+    (({} : RW).runAsIs [.header 103, .header 404, .write 4]).StatusCode = 103 ∧
+    (({} : RW).runAsIs [.header 103, .header 404, .write 4]).under.clientStatus = 200 ∧
+    (({} : RW).run [.header 103, .header 404, .write 4]).under.clientStatus = 404 := by decide
 
 /-- non-vacuity: the probe programs are valid op sequences and exercise every branch of the wrapper -/
 example : (({} : RW).run (Prog.twice 201 17).ops).StatusCode = 201 ∧ (({} : RW).run (Prog.twice 201 17).ops).size = 17 := by decide
